@@ -309,6 +309,40 @@ def run_msdat(pe, acc, case, d):
                     acc.fail('msdat:qtop:files-names', sub, 'read_qtop with explicit files %s, names %s: %s' % (files, nm or 'automatic', bad))
                 else:
                     acc.ok(('qtop-files', tuple(perm), first, spacing, nk), True, 'qtop-files')
+    # the caller's selection lists (with None = no restriction) are not modified, and a second call with the same list objects
+    # gives the same observable
+    for rdr in ('qtop', 't0'):
+        rs = [None if i % 2 == 0 else cfgs[r][-2] for i, r in enumerate(reps)]
+        rst = [cfgs[r][1] if i % 2 == 0 else None for i, r in enumerate(reps)]
+        before = (list(rs), list(rst))
+        sub = dict(case, sel='lists-with-None', reader=rdr)
+        try:
+            def rd():
+                if rdr == 'qtop':
+                    return pe.input.openQCD.read_qtop(d, prefix, 0.3, L=L, r_start=rst, r_stop=rs)
+                return pe.input.openQCD.extract_t0(d, prefix, dtr_read=1, xmin=1, spatial_extent=1, fit_range=2, c=0.5, r_start=rst, r_stop=rs)
+            try:
+                q1 = rd()
+            except Exception:
+                q1 = None            # (t0: the fit window may lie outside the data - a refusal, checked above)
+            mid = (list(rs), list(rst))
+            q2 = rd() if q1 is not None else None
+            bad = None
+            if mid != before or (list(rs), list(rst)) != before:
+                bad = 'the reader changed the r_start / r_stop lists passed by the caller: %s -> %s' % (before, (list(rs), list(rst)))
+            elif q1 is not None:
+                if rdr == 'qtop':
+                    exp_idl = {names[r]: cfgs[r][(1 if i % 2 == 0 else 0):(len(cfgs[r]) if i % 2 == 0 else len(cfgs[r]) - 1)] for i, r in enumerate(reps)}
+                    if {n: list(q1.idl[n]) for n in q1.idl} != exp_idl:
+                        bad = 'configurations %s, expected %s' % (q1.idl, exp_idl)
+                if not bad and not (q1 - q2).is_zero(1e-14):
+                    bad = 'a second call with the same list objects gives another observable'
+        except Exception as e:
+            bad = 'raised %s: %s' % (type(e).__name__, e)
+        if bad:
+            acc.fail('msdat:%s:selection-lists' % rdr, sub, '%s with r_start=%s r_stop=%s: %s' % (rdr, before[1], before[0], bad))
+        else:
+            acc.ok(('sel-lists', rdr, tuple(reps), first, spacing, dn), True, 'selection-lists')
     # dtr_cnfg = 2: every second measurement belongs to a configuration
     if spacing == 1 and first == 1:
         try:
